@@ -176,12 +176,13 @@ Definition kill (w : world) (i : nat) (it : inst) : world :=
    are programs that call back into the mock; their calls are evaluated on the
    shared state in program order.  Result: inl text of the returned Val / inr panic text ---------- *)
 Definition d_alias (m : N) : N :=
-  if m =? 21 then 17 else if m =? 22 then 18 else if m =? 25 then 23 else if m =? 26 then 24 else m.
+  if (m =? 21) || (m =? 27) then 17 else if (m =? 22) || (m =? 28) then 18
+  else if m =? 25 then 23 else if m =? 26 then 24 else m.
 
 Inductive recv := RRef | RMut | RVal | RRcSole | RRcKept | RPin.
 Definition recv_of (m : N) : recv :=
   match m with
-  | 15 | 20 => RMut | 16 => RVal | 17 | 18 | 23 | 24 => RRcSole | 21 | 22 | 25 | 26 => RRcKept | 19 => RPin | _ => RRef
+  | 15 | 20 => RMut | 16 => RVal | 17 | 18 | 23 | 24 | 27 | 28 => RRcSole | 21 | 22 | 25 | 26 => RRcKept | 19 => RPin | _ => RRef
   end.
 
 (* the required calls the common default body makes for argument a: a mod 4 calls, r0/r1 alternating *)
